@@ -821,6 +821,8 @@ class Interp:
             return None
         if isinstance(base, RandVal):
             return M.rand_method(self, fr, base, attr, args, kwargs)
+        if isinstance(base, M.FileVal):
+            return M.value_method(self, fr, base, attr, args, kwargs)[0]
         if isinstance(base, (Sym, SChar, SSeq, SSet, ASet, str, list, dict, set, tuple, frozenset, int, Fraction, RangeVal)):
             res, newbase, mutated = M.value_method(self, fr, base, attr, args, kwargs)
             if mutated:
